@@ -91,7 +91,18 @@ func commonOf(i ssa.Instruction) *ssa.CallCommon {
 
 // hintsAt proves and then assumes the hints of the function under verification attached to this call site.
 func (x *Exec) hintsAt(st *State, site ssa.Instruction, after bool) {
-	if x.spec == nil || len(x.spec.Hints) == 0 || st.fr == nil || st.fr.fn != x.top || st.dead {
+	if x.spec == nil || len(x.spec.Hints) == 0 || st.fr == nil || st.dead {
+		return
+	}
+	// the call sits in the function under verification or in a closure nested in it (range-over-func bodies)
+	in := false
+	for f := st.fr.fn; f != nil; f = f.Parent() {
+		if f == x.top {
+			in = true
+			break
+		}
+	}
+	if !in {
 		return
 	}
 	cc := commonOf(site)
@@ -102,21 +113,36 @@ func (x *Exec) hintsAt(st *State, site ssa.Instruction, after bool) {
 	if label == "" {
 		return
 	}
+	// occurrence number: calls of that callee are counted through the function under verification first and
+	// then through its nested closures in declaration order
 	k := 0
 	found := false
-	for _, b := range st.fr.fn.Blocks {
-		for _, i := range b.Instrs {
-			if c2 := commonOf(i); c2 != nil && calleeLabel(c2) == label {
-				k++
-			}
-			if i == site {
-				found = true
-				break
+	var walk func(f *ssa.Function)
+	walk = func(f *ssa.Function) {
+		for _, b := range f.Blocks {
+			for _, i := range b.Instrs {
+				if found {
+					return
+				}
+				if c2 := commonOf(i); c2 != nil && calleeLabel(c2) == label {
+					k++
+				}
+				if i == site {
+					found = true
+					return
+				}
 			}
 		}
-		if found {
-			break
+		for _, af := range f.AnonFuncs {
+			if found {
+				return
+			}
+			walk(af)
 		}
+	}
+	walk(x.top)
+	if !found {
+		return
 	}
 	for _, h := range x.spec.Hints {
 		if h.After != after || h.Callee != label || h.K != k {
